@@ -7,7 +7,7 @@ from . import c01
 ID = 'C11'
 LEVEL = 'exploration'
 RULE = ('case = (container tree over list/tuple/set/frozenset/dict whose leaves are pairwise distinct ints, strs, bytes '
-        'and floats, optionally with comment() on list elements / dict values / the root (comments are inert for depth), '
+        'and floats (inf, -inf and nan at most once each), optionally with comment() on list elements / dict values / the root (comments are inert for depth), '
         'depth d in {0..height+2, None}, width in {20, 200}). Exhaustive: all shapes with <= 4 (quick) / 5 '
         '(thorough) nodes x every d; random: Hypothesis shapes up to 25 leaves. Oracle: the ASTs of the depth-d output '
         'and of the unlimited output are walked in parallel, driven by the value: an element inside k containers is '
@@ -33,7 +33,7 @@ def is_ph(node, typ):
 def relabel(r, counter=None):
     """make every leaf unique (kinds cycle through int, str, bytes, float)"""
     if counter is None:
-        counter = [100]
+        counter = [100, ['inf', '-inf', 'nan']]     # (next number, special floats not used yet: each at most once)
     t = r[0]
     if t in ('list', 'tuple', 'set', 'fset'):
         return [t, [relabel(x, counter) for x in r[1]]]
@@ -48,6 +48,8 @@ def relabel(r, counter=None):
         return ['str', 's%d' % i]
     if kind == 2:
         return ['bytes', ('b%d' % i).encode().hex()]
+    if i % 7 == 3 and counter[1]:
+        return ['float', counter[1].pop(0)]
     return ['float', repr(i + 0.5)]
 
 
@@ -172,6 +174,8 @@ def walk(v, full, cut, k, d, ctxkey=False):
 
 
 def fixed_cases():
+    for d in (0, 1, 2, 3, None):        # special floats are floats: full above the cut, float(...) below
+        yield {'v': ['list', [['float', 'inf'], ['list', [['float', 'nan'], ['float', '1.5']]], ['dict', [[['float', '-inf'], ['int', 1]]]]]], 'd': d, 'width': 200}
     deep = ['dict', [[['str', 's1'], ['cmt', 'a comment long enough to go above the value', ['list', [['int', 1], ['list', [['int', 2], ['list', [['int', 3]]]]]]]]]]]
     for d in (0, 1, 2, 3, 4, 5, None):
         for w in (20, 200):
